@@ -19,22 +19,35 @@ pub type Ext = Ty;
 MODULE_PRELUDE = "#[allow(unused_imports)] use crate::conv; #[allow(unused_imports)] use crate::conv::Ext;\n"
 
 
-def write_crate(dirpath, modules, no_std=True, extra_lib="", bin_main=None, dd_features=None):
-    """modules: list of (module_name, token_string)."""
+def write_crate(dirpath, modules, no_std=True, extra_lib="", bin_main=None, dd_features=None, member=False):
+    """modules: list of (module_name, token_string). With member=True the crate is a workspace member in
+    <dirpath>/probe (so that the compiler's working directory, the workspace root, differs from the crate root);
+    returns the crate root."""
     if os.path.exists(dirpath):
         shutil.rmtree(dirpath)
+    root = dirpath
+    if member:
+        os.makedirs(dirpath)
+        with open(os.path.join(root, "Cargo.toml"), "w") as f:
+            f.write('[workspace]\nmembers = ["probe"]\nresolver = "2"\n\n[profile.dev]\ndebug = false\nopt-level = 0\noverflow-checks = true\ndebug-assertions = true\n')
+        shutil.copy(os.path.join(HARNESS, "Cargo.lock"), os.path.join(root, "Cargo.lock"))
+        os.makedirs(os.path.join(root, ".cargo"))
+        with open(os.path.join(root, ".cargo", "config.toml"), "w") as f:
+            f.write("[net]\noffline = true\n")
+        dirpath = os.path.join(root, "probe")
     os.makedirs(os.path.join(dirpath, "src"))
     feats = ""
     if dd_features is not None:
         feats = ", features = [" + ", ".join('"%s"' % f for f in dd_features) + "]"
     with open(os.path.join(dirpath, "Cargo.toml"), "w") as f:
-        f.write('[package]\nname = "ddv-probe"\nversion = "0.1.0"\nedition = "2024"\npublish = false\n\n[workspace]\n\n'
-                '[dependencies]\ndevice-driver = { path = "/repo/device-driver", default-features = false' + feats + ' }\n'
-                '\n[profile.dev]\ndebug = false\nopt-level = 0\noverflow-checks = true\ndebug-assertions = true\n')
-    shutil.copy(os.path.join(HARNESS, "Cargo.lock"), os.path.join(dirpath, "Cargo.lock"))
-    os.makedirs(os.path.join(dirpath, ".cargo"))
-    with open(os.path.join(dirpath, ".cargo", "config.toml"), "w") as f:
-        f.write("[net]\noffline = true\n")
+        f.write('[package]\nname = "ddv-probe"\nversion = "0.1.0"\nedition = "2024"\npublish = false\n\n' + ("" if member else '[workspace]\n\n') +
+                '[dependencies]\ndevice-driver = { path = "/repo/device-driver", default-features = false' + feats + ' }\n' +
+                ("" if member else '\n[profile.dev]\ndebug = false\nopt-level = 0\noverflow-checks = true\ndebug-assertions = true\n'))
+    if not member:
+        shutil.copy(os.path.join(HARNESS, "Cargo.lock"), os.path.join(dirpath, "Cargo.lock"))
+        os.makedirs(os.path.join(dirpath, ".cargo"))
+        with open(os.path.join(dirpath, ".cargo", "config.toml"), "w") as f:
+            f.write("[net]\noffline = true\n")
     lib = ("#![no_std]\n" if no_std else "") + "#![allow(warnings)]\nextern crate self as ddv_conv;\npub mod conv {" + CONV_RS + "}\npub use conv::Ty;\n"
     for name, toks in modules:
         with open(os.path.join(dirpath, "src", name + ".rs"), "w") as f:
@@ -46,6 +59,7 @@ def write_crate(dirpath, modules, no_std=True, extra_lib="", bin_main=None, dd_f
     if bin_main is not None:
         with open(os.path.join(dirpath, "src", "main.rs"), "w") as f:
             f.write(bin_main)
+    return dirpath
 
 
 def cargo_check(dirpath, run=False, timeout=3600):
